@@ -54,7 +54,14 @@ def main():
     wt = f"/tmp/wt/seedv.{name}.{os.getpid()}"
     os.makedirs("/tmp/wt", exist_ok=True)
     sh(["git", "-C", "/repo", "worktree", "add", "-q", "--detach", wt, "HEAD"])
-    meta = {"property": prop, "name": name, "verified_at_repo_commit": sh(["git", "-C", "/repo", "rev-parse", "--short", "HEAD"]).stdout.strip(), "ran": []}
+    keep = {}
+    if os.path.exists(os.path.join(out, "meta.json")):
+        try:
+            old_meta = json.load(open(os.path.join(out, "meta.json")))
+            keep = {k: old_meta[k] for k in ("what", "needs_to_manifest", "author", "history", "neutralised_by") if k in old_meta}   # my annotations survive a re-verification
+        except Exception:
+            keep = {}
+    meta = {**keep, "property": prop, "name": name, "verified_at_repo_commit": sh(["git", "-C", "/repo", "rev-parse", "--short", "HEAD"]).stdout.strip(), "ran": []}
     try:
         shutil.copy(os.path.join("/repo", SO), os.path.join(wt, SO))
         env = dict(os.environ, PYTHONPATH=f"{wt}/src")
